@@ -9,6 +9,7 @@ pub fn list() -> Vec<(&'static str, super::Scenario)> {
         ("f2_dormant_race", f2_dormant_race),
         ("f3_sync_sync", f3_sync_sync),
         ("f3_nested_sync", f3_nested_sync),
+        ("selftest_uaf", selftest_uaf),
     ]
 }
 
@@ -41,6 +42,9 @@ fn f1_try_sync_idle_nonempty(cfg: &Cfg) {
     join(t1, "t1");
     join(t2, "t2");
     rt::quiesce();
+    if cfg.pool() == 0 {
+        w.sync(&q, "kick", Body::plain());
+    }
     w.check_quiet();
     expect_idle(&q);
     check_no_unplanned_panics();
@@ -99,5 +103,21 @@ fn f3_nested_sync(cfg: &Cfg) {
     expect_idle(&qw);
     expect_idle(&qb);
     check_no_unplanned_panics();
+    shutdown();
+}
+
+/// Machinery self-test only: a deliberate heap use-after-free inside a job (must kill a sanitizer-build worker)
+fn selftest_uaf(cfg: &Cfg) {
+    setup(cfg.pool());
+    let w = World::new();
+    let q = w.raw();
+    w.sync(&q, "S", Body::with(|| {
+        let b = Box::new(41u64);
+        let p: *const u64 = &*b;
+        drop(b);
+        let v = unsafe { std::ptr::read_volatile(p) };
+        rt::outcome(format!("{}", v));
+    }));
+    rt::quiesce();
     shutdown();
 }
